@@ -109,8 +109,26 @@ fn pow(b: i64, e: usize) -> i64 {
 }
 
 /// f(x, a_1..a_n)_i = x_i + sum_t a_t * B^t + code * B^(n+1); length = override or |x|
+/// an output length that DEPENDS ON THE PARAMETERS: `len = 1000 + 100 t + L` stands for "L elements if
+/// the first argument is >= t, the natural length otherwise" (a user function whose output length is
+/// not constant: every call is checked, not only the first)
+fn effective_len<T: IntLike>(p: &Probe, natural: usize, args: &[T]) -> usize {
+    match p.len {
+        Some(c) if c >= 1000 => {
+            let (t, l) = (((c - 1000) / 100) as i64, (c - 1000) % 100);
+            if args.first().map_or(false, |a| a.to_i() >= t) {
+                l
+            } else {
+                natural
+            }
+        }
+        Some(l) => l,
+        None => natural,
+    }
+}
+
 fn probe_eval<T: IntLike>(p: &Probe, base: i64, x: &DVector<T>, args: &[T]) -> DVector<T> {
-    let l = p.len.unwrap_or(x.len());
+    let l = effective_len(p, x.len(), args);
     let mut s = p.code * pow(base, args.len() + 1);
     for (t, a) in args.iter().enumerate() {
         s += a.to_i() * pow(base, t + 1);
@@ -938,6 +956,17 @@ pub fn stream_model(out: &mut Out, seed: u64, thorough: bool) {
             .iter()
             .find_map(|c| if let MCall::X(n) = c { Some(*n) } else { None })
             .unwrap_or(1);
+        // one session in four: a function (or derivative) whose output length depends on its first
+        // parameter - right below the switch value 4, wrong from 4 on; the updates below cross it
+        if i % 4 == 1 {
+            let j = rng.below(calls.len());
+            let wl = *rng.pick(&[n + 1, n.saturating_sub(1), 0]);
+            if let MCall::Function(_, pr) | MCall::Deriv(_, pr) = &mut calls[j] {
+                if wl != n && pr.arity >= 1 {
+                    pr.len = Some(1000 + 100 * 4 + wl);
+                }
+            }
+        }
         // choose wrong lengths for 0..2 payloads
         let nwrong = *rng.pick(&[0usize, 1, 1, 2]);
         for _ in 0..nwrong {
@@ -945,7 +974,7 @@ pub fn stream_model(out: &mut Out, seed: u64, thorough: bool) {
             let wl = *rng.pick(&[0usize, n.saturating_sub(1), n + 1, 2 * n]);
             match &mut calls[j] {
                 MCall::Function(_, pr) | MCall::Deriv(_, pr) | MCall::Invariant(pr) => {
-                    if wl != n {
+                    if wl != n && pr.len.is_none() {
                         pr.len = Some(wl)
                     }
                 }
